@@ -53,6 +53,9 @@ RULE = (
     "2-5 same-class inputs (Points/Curve/Surface), 1-8 lattice vertices each, random cells (about a third of inputs have "
     "unreferenced tail vertices, cells unordered), float data on a subset of inputs with names drawn with replacement; "
     "non-trivial = some input has a vertex no cell uses or a data set is missing on some input; "
+    "about 18% of all cases (every class) merge a list in which one of the built objects occurs more than once ([a, b, a]); about 8% of the inputs "
+    "carry two data sets under one name/association (the renaming branch; the oracle then demands that every input data set survives unaltered "
+    "at its input's positions in some merged data set of that name and that nothing else appears); "
     "drape models: 2-4 inputs, 2-4 prisms each (4% of the cases have one single-prism input), 1-3 layers per prism, integer trace coordinates / "
     "tops / bottoms, CELL data under 0-3 names each present on about half of the inputs; non-trivial = three or more inputs or a data set missing somewhere"
 )
@@ -98,7 +101,9 @@ def generate(rng, tier):
         cls = rng.weighted([("Curve", 45), ("Surface", 35), ("Points", 20)])
         names = rng.sample([0, 1, 2, 3], rng.range(0, 3))
         k = rng.range(2, 5)
-        cases.append({"cls": cls, "inputs": [gen_input(rng, cls, names) for _ in range(k)]})
+        case = {"cls": cls, "inputs": [gen_input(rng, cls, names) for _ in range(k)]}
+        DR.maybe_repeat(rng, case, 5)  # the same object more than once in the list that is merged
+        cases.append(case)
     cases += DR.generate(rng, tier)  # drape models, drawn after the others so that those stay the same per seed
     return cases
 
@@ -154,6 +159,7 @@ def drive_one(case, work):
                     "values": np.array([np.nan if v is None else float(v) for v in d["vals"]]),
                     "association": "CELL" if d["cell"] else "VERTEX"}})
             ins.append(ob)
+        ins = [ins[j] for j in DR.order_of(case)]  # the list handed to the merger (an object may occur repeatedly)
         before = [_snap(o) for o in ins]
         try:
             out = merger.merge_objects(ws, ins)
@@ -209,7 +215,7 @@ def case_term(case, obs, which="out"):
         if nid is None or any(isinstance(v, dict) for v in c["vals"]):
             return "false"
         ch.append("(%s, %s, %s)" % (cnat(nid), cbool(c["cell"]), _vals_term(c["vals"])))
-    ins = clist(_inp_term(s) for s in case["inputs"])
+    ins = clist(_inp_term(s) for s in DR.expand(case))
     live = "%s %s %s %s %s" % ("agree" if which == "out" else "agree_stored", ins, clist(_pt(p) for p in verts), clist(clist(cnat(v) for v in c) for c in o["cells"]), clist(ch))
     if which == "out" and "out_reopened" in obs:
         stored = case_term(case, obs, "out_reopened")
@@ -220,7 +226,7 @@ def case_term(case, obs, which="out"):
 def model_term(case):
     if case["cls"] == DR.CLS:
         return DR.model_term(case)
-    ins = clist(_inp_term(s) for s in case["inputs"])
+    ins = clist(_inp_term(s) for s in DR.expand(case))
     return f"(merge_verts {ins}, merge_cells {ins}, out_children {ins})"
 
 
@@ -234,7 +240,7 @@ def oracle(case, obs):
     if "out" not in obs:
         return [{"key": "merge-refused", "what": f"merge of valid inputs raised {obs.get('error')}: {obs.get('msg')}"}]
     out = obs["out"]
-    ins = case["inputs"]
+    ins = DR.expand(case)
     # vertices: inputs' vertices in order
     exp_v = [[float(x) for x in p] for s in ins for p in s["verts"]]
     if out["verts"] != exp_v:
@@ -282,6 +288,20 @@ def oracle(case, obs):
         got = {(c["name"], c["cell"]): c["vals"] for c in out["children"]}
         if len(got) != len(out["children"]) or got != exp:
             fails.append({"key": "data-not-concatenated", "what": f"merged data {got} differ from expected {exp}"})
+    else:
+        # an input with several data sets under one name/type/association: whichever way they are told apart in the output,
+        # every one of them must still be there at its input's positions, and nothing else may appear
+        voffs, coffs, v, c = [], [], 0, 0
+        for s in ins:
+            voffs.append(v)
+            coffs.append(c)
+            v += len(s["verts"])
+            c += len(s["cells"])
+        fails += DR.survival_fails(
+            ins, out["children"],
+            lambda k, cell: coffs[k] if cell else voffs[k],
+            lambda k, cell: len(ins[k]["cells"]) if cell else len(ins[k]["verts"]),
+            lambda cell: c if cell else v)
     def _canon(sn):
         return None if sn is None else dict(sn, children=sorted(sn["children"], key=lambda c: (c["name"], c["cell"], str(c["vals"]))))
 
@@ -295,7 +315,7 @@ def oracle(case, obs):
 def nontrivial(case, obs):
     if case["cls"] == DR.CLS:
         return DR.nontrivial(case, obs)
-    ins = case["inputs"]
+    ins = DR.expand(case)
     tail = any(s["cells"] and max(v for c in s["cells"] for v in c) < len(s["verts"]) - 1 for s in ins)
     names = {d["name"] for s in ins for d in s["data"]}
     missing = any(n not in {d["name"] for d in s["data"]} for s in ins for n in names)
@@ -311,10 +331,12 @@ def histogram(cases, obs):
 
 
 def _histogram(cases, obs):
-    h = {"cls": {}, "n_inputs": {}, "unreferenced_tail": 0, "data_sets": {}, "dup_name_in_input": 0, "outcome": {}}
+    h = {"cls": {}, "n_inputs": {}, "unreferenced_tail": 0, "data_sets": {}, "dup_name_in_input": 0, "repeated_object": 0, "outcome": {}}
     for c, o in zip(cases, obs):
+        if "order" in c:
+            h["repeated_object"] += 1
         h["cls"][c["cls"]] = h["cls"].get(c["cls"], 0) + 1
-        k = str(len(c["inputs"]))
+        k = str(len(DR.order_of(c)))
         h["n_inputs"][k] = h["n_inputs"].get(k, 0) + 1
         if any(s["cells"] and max(v for cc in s["cells"] for v in cc) < len(s["verts"]) - 1 for s in c["inputs"]):
             h["unreferenced_tail"] += 1
